@@ -120,10 +120,18 @@ class Validator:
         if vm is None or "check_attrs" not in vm.functions or "check_group_compatible" not in vm.functions:
             raise AnalysisError("anchor skglm.utils.validation.check_attrs missing")
         ca = vm.functions["check_attrs"]
-        src = ast.unparse(ca.node)
-        # the semantics relied upon: hasattr(obj, a + suffix) over the required list
-        if "hasattr(obj, f'{a}{suffix}')" not in src.replace('"', "'") or "SPARSE_SUFFIX" not in src:
-            raise AnalysisError("check_attrs no longer has the hasattr(obj, a+suffix) form "
+        # the semantics relied upon: hasattr(<first parameter>, f"{name}{suffix}") over the
+        # required list, the suffix coming from SPARSE_SUFFIX when support_sparse is set
+        obj = ca.params[0] if ca.params else None
+        ok = False
+        for c in ast.walk(ca.node):
+            if isinstance(c, ast.Call) and ast.unparse(c.func) == "hasattr" and len(c.args) == 2 \
+                    and isinstance(c.args[0], ast.Name) and c.args[0].id == obj \
+                    and isinstance(c.args[1], ast.JoinedStr) \
+                    and sum(isinstance(v, ast.FormattedValue) for v in c.args[1].values) == 2:
+                ok = True
+        if not ok or "SPARSE_SUFFIX" not in {n.id for n in ast.walk(ca.node) if isinstance(n, ast.Name)}:
+            raise AnalysisError("check_attrs no longer has the hasattr(obj, name+suffix) form "
                                 "this evaluator models")
         self.suffix = "_sparse"
         self.cache = {}
